@@ -22,6 +22,10 @@ def run(c):
     # error-class switches of newSession (join, sync) and heartbeatLoop, regenerated from the source; the model is tied to the
     # goldens by c07_tie_join / c07_tie_sync / c07_tie_heartbeat (coq/Properties/C07.v)
     run_decgen(c, "C07")
+    # c07_no_skip and the final-commit clause rest on the offset manager's contract (Section hypothesis discharged by the C06
+    # theorems): tie this check to the regenerated offset-manager leaf logic as well (MarkOffset, ResetOffset, updateCommitted,
+    # NextOffset, the commit verdict switch, the final-flush loop of Close, AddBlock — goldens proved against in coq/C06/TieGen.v)
+    run_decgen(c, "C06")
     b = c.go_build("c07corr")
     if not b:
         return
